@@ -40,6 +40,7 @@ def plan(tier, seed):
     for i in range(4 if q else 32):
         shards.append({"kind": "tap", "n": 500 if q else 5000})
     shards.append({"kind": "suite", "label": "suite"})
+    shards.append({"kind": "forkspend", "n": 250 if q else 6000, "label": "forkspend"})
     return shards
 
 
@@ -348,7 +349,55 @@ def run_tap(spec, rec):
         w.restore()
 
 
+def run_fork_spends(spec, rec):
+    """fork-id coins in script validation: a signature without the fork-id bit is refused (the spend fails) even where a
+    false signature check would be tolerated; one with the bit is checked against the fork digest"""
+    from vmon.checks import c05
+    rng = shard_rng(spec["seed"], PROPERTY, spec["tier"], spec["shard"])
+    keys = G.Keys()
+    for coin in ("BCH", "BTG"):
+        net = network_for(coin)
+        fork = c05.FORK[coin]
+        for k in range(spec["n"]):
+            ki = rng.randrange(len(keys.d))
+            pub = keys.sec(ki, True)
+            tail = rng.choice([b"\xac", b"\xac\x91", b"\xac\x63\x51\x67\x51\x68", b"\xad\x51"])
+            script = G.push(pub) + tail
+            if rng.random() < 0.3:
+                script = b"\x51" + G.push(pub) + b"\x51\xae" + (b"\x91" if rng.random() < 0.6 else b"")
+            ht = rng.choice([0x41, 0x41, 0x43, 0xc1, 0x01, 0x03, 0x82, 0x00, 0x81])
+            amount = rng.choice([1000, 5 * 10 ** 8])
+            t = G.mk_tx(rng, b"", [], amount, 1, 0, 0xffffffff, rng.choice([0, 1]), 1, 0)
+            digest = SH.bip143(t, 0, script, amount, ht | 0x40 if rng.random() < 0.5 else ht, fork_or=fork[1])
+            sig = G.sig_blob(keys, ki, digest, ht)
+            unlock = ([b""] if script[:1] == b"\x51" else []) + [sig]
+            wrapper = rng.choice(["bare", "p2sh"])
+            if wrapper == "bare":
+                spk, t["ins"][0]["script"] = script, b"".join(G.push(u) for u in unlock)
+            else:
+                spk = b"\xa9\x14" + G.hash160(script) + b"\x87"
+                t["ins"][0]["script"] = b"".join(G.push(u) for u in unlock) + SH.push_data(script)
+            flags = rng.choice([RS.P2SH, RS.P2SH | RS.WITNESS, 0xffff & ~RS.STRICTENC & ~RS.NULLFAIL, RS.P2SH | RS.NULLFAIL])
+            chk = c05.ForkChecker(t, 0, amount, fork)
+            ref = RS.result_of(RS.verify_script, t["ins"][0]["script"], spk, [], flags, chk)
+            tx = to_pycoin(net, t, [amount], [spk])
+            st, got = observe(tx.is_solution_ok, 0, flags=flags)
+            rec.ev("fork_coin_spend")
+            rec.ev("fork_coin_spend.%s" % ("with_forkid" if ht & 0x40 else "without_forkid"))
+            rec.case(("forkspend", coin, txser.serialize(t), spk, flags))
+            case = {"coin": coin, "tx": t, "spk": spk, "amount": amount, "flags": flags, "ht": ht, "forkspend": True}
+            if st != "ok":
+                rec.violation("%s.validation_raises.%s" % (coin.lower(), type(got).__name__), case, got, ref)
+            elif got is not (ref == "OK"):
+                why = "hashtype_without_forkid_tolerated" if not (ht & 0x40) and got else "verdict_differs"
+                rec.violation("%s.spend.%s" % (coin.lower(), why), case, got, ref)
+
+
 def run_shard(spec, rec):
+    if spec["kind"] == "forkspend":
+        rec.require("fork_coin_spend.without_forkid", "fork_coin_spend.with_forkid")
+        run_fork_spends(spec, rec)
+        return
     if spec["kind"] == "suite":
         from vmon import suite
         rec.require("suite.sighash.legacy", "suite.sighash.segwit")
@@ -362,6 +411,16 @@ def run_shard(spec, rec):
 
 
 def replay_case(case, rec):
+    if case.get("forkspend"):
+        from vmon.checks import c05
+        net = network_for(case["coin"])
+        t = case["tx"]
+        chk = c05.ForkChecker(t, 0, case["amount"], c05.FORK[case["coin"]])
+        ref = RS.result_of(RS.verify_script, t["ins"][0]["script"], case["spk"], [], case["flags"], chk)
+        got = to_pycoin(net, t, [case["amount"]], [case["spk"]]).is_solution_ok(0, flags=case["flags"])
+        if got is not (ref == "OK"):
+            rec.violation("%s.spend.verdict_differs" % case["coin"].lower(), case, got, ref)
+        return
     if "coin" in case:
         net = network_for(case["coin"])
         hts = range(256) if case.get("ht") in ("all", None) else [case["ht"]]
